@@ -93,7 +93,9 @@ def healpix_case(draw, tier, mode):
     bcast = draw(st.integers(0, 3)) == 0
     return {'what': 'healpix', 'nside': nside, 'theta': theta, 'phi': phi, 'coverage': draw(st.booleans()),
             'rep': draw(st.integers(1, 5)), 'centres': centres, 'bcast': bcast, 'k': draw(st.integers(1, 3)),
-            'f32_landscape': draw(st.booleans()), 'fresh': draw(st.integers(0, 3)) == 0}
+            'f32_landscape': draw(st.booleans()), 'fresh': draw(st.integers(0, 3)) == 0,
+            # long timelines: totals around and beyond 2**16 samples (not only multiples of a block length)
+            'long_total': draw(st.sampled_from([None] * 5 + [65536, 65537, 70000, 100000, 131072, 140001]))}
 
 
 def strategy(tier, mode):
@@ -288,6 +290,9 @@ def check(recipe, mode):
     if recipe['coverage']:
         rep = recipe['rep']
         th, ph = np.tile(theta, rep), np.tile(phi, rep)
+        if recipe.get('long_total'):
+            th, ph = np.resize(theta, recipe['long_total']), np.resize(phi, recipe['long_total'])
+            classes.append('long_timeline')
         samp = Sampling(jnp.asarray(th, dtype=fdt), jnp.asarray(ph, dtype=fdt), jnp.zeros(th.size, dtype=fdt))
         cov = np.asarray(must_not_raise('get_coverage', land.get_coverage, samp))
         if cov.shape != land.shape:
@@ -295,7 +300,7 @@ def check(recipe, mode):
         if int(cov.sum()) != th.size:
             raise Violation('coverage-total', f'coverage sums to {int(cov.sum())} for {th.size} samples')
         if robust.all():
-            want = np.bincount(np.tile(ref, rep), minlength=12 * nside ** 2)
+            want = np.bincount(np.resize(ref, th.size), minlength=12 * nside ** 2)
             if not np.array_equal(cov, want):
                 j = int(np.nonzero(cov != want)[0][0])
                 raise Violation('coverage-value', f'pixel {j}: {int(cov[j])} hits, histogram says {int(want[j])}')
